@@ -22,6 +22,7 @@ theorem facts_match :
     FactsC01.stepGuardBeforeSubmit = Expected.C01.stepGuardBeforeSubmit ∧
     FactsC01.stepGuardOp = Expected.C01.stepGuardOp ∧
     FactsC01.stepGuardOnlyNonDag = true ∧
+    FactsC01.limitValidated = true ∧
     FactsC01.needAllIsNotEager = true := by decide
 
 /-- **pregel_refines_superstep.** For every runner in any-predecessor mode whose node keys
